@@ -1623,6 +1623,134 @@ theorem C01_compose_example_abs (y z r n : Nat) (hy : y < n) (hz : z < n) (hr : 
     rw [this]; exact d
 
 
+
+/-! ## count over 0/1 arguments (the case without auxiliary reification) -/
+
+theorem countFlags_binary (B : Bnds) (args : List Var) (n : Nat) (h : ∀ a ∈ args, (B a).isBinary = true) :
+    countFlags B args n = (args, [], [], false) := by
+  induction args with
+  | nil => rfl
+  | cons a t ih =>
+    have ha := h a (by simp)
+    have ht := ih (fun b hb => h b (by simp [hb]))
+    simp [countFlags, ha, ht]
+
+/-- `CountConverter_MIP` when every argument is a binary variable: `res = Σ args`.
+(The general case — non-binary arguments reified through `(a == 0)` and `not` — is modelled and
+correspondence-checked, not proved.) -/
+theorem C01_gadget_count_binary_partial (res : Var) (args : List Var) (B : Bnds) (n : Nat)
+    (hbin : ∀ a ∈ args, (B a).isBinary = true) :
+    Exact (gCount res args B n) n (fun x => ∀ a ∈ args, x a = 0 ∨ x a = 1)
+      (fun x => x res = Fun.val x (.count args)) := by
+  have hg : gCount res args B n = { cons := [.linRhs .eq (ones args ++ [(-1, res)]) 0] } := by
+    simp [gCount, countFlags_binary B args n hbin]
+  have key : ∀ x : Asg, (∀ a ∈ args, x a = 0 ∨ x a = 1) →
+      ((∀ c ∈ (gCount res args B n).cons, c.sat x) ↔ x res = Fun.val x (.count args)) := by
+    intro x hx
+    rw [hg]
+    simp only [List.mem_singleton, forall_eq, Con.sat, Cmp.holds, evalLin_append, evalLin_cons, evalLin_nil,
+      Fun.val, count_bin x args hx]
+    grind
+  have hv : (gCount res args B n).vars = [] := by rw [hg]
+  exact ⟨fun y hd _ h => (key y hd).mp h, fun x hd h => realizable_self hv ((key x hd).mpr h)⟩
+
+/-! ## max / min: the convex direction (`res ≥ max`, `res ≤ min`) -/
+
+theorem maxL_le_iff (x : Asg) (a : Var) (t : List Var) (r : Rat) :
+    maxL x a t ≤ r ↔ ∀ b ∈ a :: t, x b ≤ r := by
+  induction t generalizing a with
+  | nil => simp [maxL]
+  | cons b t ih =>
+    simp only [maxL]
+    have := ih b
+    split
+    · rename_i hle
+      rw [this]
+      constructor
+      · intro h c hc
+        simp only [List.mem_cons] at hc
+        rcases hc with hc | hc
+        · subst hc
+          have : maxL x b t ≤ r := (ih b).mpr h
+          grind
+        · exact h c (by simp [hc])
+      · intro h c hc; exact h c (by simp [hc])
+    · rename_i hnle
+      constructor
+      · intro h c hc
+        simp only [List.mem_cons] at hc
+        rcases hc with hc | hc
+        · subst hc; exact h
+        · have h1 : maxL x b t ≤ r := by grind
+          exact (ih b).mp h1 c (by simp [hc])
+      · intro h; exact h a (by simp)
+
+theorem le_minL_iff (x : Asg) (a : Var) (t : List Var) (r : Rat) :
+    r ≤ minL x a t ↔ ∀ b ∈ a :: t, r ≤ x b := by
+  induction t generalizing a with
+  | nil => simp [minL]
+  | cons b t ih =>
+    simp only [minL]
+    split
+    · rename_i hle
+      constructor
+      · intro h c hc
+        simp only [List.mem_cons] at hc
+        rcases hc with hc | hc
+        · subst hc; exact h
+        · have h1 : r ≤ minL x b t := by grind
+          exact (ih b).mp h1 c (by simp [hc])
+      · intro h; exact h a (by simp)
+    · rename_i hnle
+      rw [ih b]
+      constructor
+      · intro h c hc
+        simp only [List.mem_cons] at hc
+        rcases hc with hc | hc
+        · subst hc
+          have : r ≤ minL x b t := (ih b).mpr h
+          grind
+        · exact h c (by simp [hc])
+      · intro h c hc; exact h c (by simp [hc])
+
+/-- `MaxConverter_MIP` in negative context (`res ≥ max(args)`): one row per argument.
+The non-convex direction (flags + indicators) is modelled and correspondence-checked, not proved. -/
+theorem C01_gadget_max_neg_partial (res a : Var) (t : List Var) (B : Bnds) (n : Nat) :
+    Exact (gMax res (a :: t) .neg B n) n (fun _ => True)
+      (fun x => rel .neg (x res) (Fun.val x (.max (a :: t)))) := by
+  have hg : gMax res (a :: t) .neg B n = mmConvex 1 res (a :: t) := by
+    simp [gMax, dispatch, needNeg, needPos, Ctx.eff, Ctx.hasNeg, Ctx.hasPos, mmConvex]
+  have key : ∀ x : Asg, (∀ c ∈ (gMax res (a :: t) .neg B n).cons, c.sat x) ↔
+      rel .neg (x res) (Fun.val x (.max (a :: t))) := by
+    intro x
+    rw [hg]
+    simp only [rel, req, Ctx.eff, Fun.val, maxL_le_iff, mmConvex, List.mem_map, forall_exists_index, and_imp,
+      forall_apply_eq_imp_iff₂, Con.sat, Cmp.holds, evalLin_cons, evalLin_nil]
+    constructor
+    · intro h b hb; have := h b hb; grind
+    · intro h b hb; have := h b hb; grind
+  have hv : (gMax res (a :: t) .neg B n).vars = [] := by rw [hg]; rfl
+  exact ⟨fun y _ _ h => (key y).mp h, fun x _ h => realizable_self hv ((key x).mpr h)⟩
+
+/-- `MinConverter_MIP` in positive context (`res ≤ min(args)`) -/
+theorem C01_gadget_min_pos_partial (res a : Var) (t : List Var) (B : Bnds) (n : Nat) :
+    Exact (gMin res (a :: t) .pos B n) n (fun _ => True)
+      (fun x => rel .pos (x res) (Fun.val x (.min (a :: t)))) := by
+  have hg : gMin res (a :: t) .pos B n = mmConvex (-1) res (a :: t) := by
+    simp [gMin, dispatch, needNeg, needPos, Ctx.eff, Ctx.hasNeg, Ctx.hasPos, mmConvex]
+  have key : ∀ x : Asg, (∀ c ∈ (gMin res (a :: t) .pos B n).cons, c.sat x) ↔
+      rel .pos (x res) (Fun.val x (.min (a :: t))) := by
+    intro x
+    rw [hg]
+    simp only [rel, req, Ctx.eff, Fun.val, le_minL_iff, mmConvex, List.mem_map, forall_exists_index, and_imp,
+      forall_apply_eq_imp_iff₂, Con.sat, Cmp.holds, evalLin_cons, evalLin_nil]
+    constructor
+    · intro h b hb; have := h b hb; grind
+    · intro h b hb; have := h b hb; grind
+  have hv : (gMin res (a :: t) .pos B n).vars = [] := by rw [hg]; rfl
+  exact ⟨fun y _ _ h => (key y).mp h, fun x _ h => realizable_self hv ((key x).mpr h)⟩
+
+
 /-!
 ## Stage 2 (NOT proved here beyond the single-nesting fragment above): composition
 
